@@ -57,6 +57,11 @@ flat::State gen_plain_state(uint64_t seed) {
     flat::State st = icase::gen_state(s, 8);
     st[flat::F_pc] = 0x100 + s.below(0x1000);
     st[flat::F_rep] = 0;
+    // an active loop frame must not end right at the instruction under test (the fetch loop would then jump back to the block start:
+    // loop control, not the subject here); the frames keep arbitrary 18-bit contents otherwise
+    for (int i = 0; i < 4; ++i)
+        if (st[flat::F_bk_end + i] < 0x1200)
+            st[flat::F_bk_end + i] += 0x2000;
     return st;
 }
 
